@@ -5,6 +5,7 @@ the repository) returns for the same bytes — for ANY estimator and predictor f
 the consumed length are decided by the parser alone), in particular for the modelled ones.
 -/
 import Preflate.Props.C03
+import Preflate.Props.C03RFC
 import Preflate.Props.C02Public
 namespace Preflate
 
@@ -23,5 +24,16 @@ theorem library_agrees_spec (verify : Bool) (d : List UInt8) (r : StreamResult)
     (h : decompressStream Est.estimate Chains.pred verify d = .ok r) :
     Spec.inflate d = some (r.plain, r.size) :=
   public_agrees_spec Est.estimate Chains.pred verify d r h
+
+/-- the property's statement against the INDEPENDENT RFC/zlib reading of the dynamic header
+    (`SpecRFC.inflate`: symbol 16 copies the previous length zeros included; zlib's three accepted shapes of
+    a length vector): whenever the public function accepts and that reading accepts, plain_text and
+    compressed_size agree — although the two readings accept different sets of streams -/
+theorem public_agrees_rfc {H : Type} (est : Array Nat → List Block → R Params) (mk : Params → Pred H)
+    (verify : Bool) (d : List UInt8) (r : StreamResult) (pl : Array Nat) (n : Nat)
+    (h : decompressStream est mk verify d = .ok r) (hs : SpecRFC.inflate d = some (pl, n)) :
+    r.plain = pl ∧ r.size = n := by
+  obtain ⟨p, params, hdr, body, h1, _, _, _, rfl⟩ := Proofs.decompressStream_ok h
+  exact parse_agrees_rfc d p pl n h1 hs
 
 end Preflate
